@@ -139,7 +139,8 @@ CHECKS["C02"] = dict(
     technique="Coq proof (partial): corollaries of the compiler theorem for every consumer that stops after j values (same world at every stop point); "
               "differential translation validation on full event logs (every user-code evaluation interleaved with consumer marks, incl. generator call and advances after exhaustion)",
     text="C02_same_world_at_every_stop_partial, C02_truncation_partial (Props_C02.v): on the fragment of C01, for every stop point the compiled generator has run exactly the user "
-         "code the source coroutine has run. That nothing runs before the first MoveNext and the laziness of the runtime itself are covered by the runtime theorems (C08/C09) and by the "
+         "code the source coroutine has run; C02_machine_lockstep_partial: the same on the machine model of seq.go (consumer loop over MoveNext/Current stops in the world in which the source coroutine stops); "
+         "C02_start_runs_nothing: Start only allocates, no user code runs before the first advance. The laziness of the runtime itself is also covered by the runtime theorems (C08/C09) and by the "
          "differential check on interleaved event logs (prefix closure covers every truncation point).",
     note=C_NOTE, design="§6 C02, §11")
 CHECKS["C07"] = dict(
@@ -147,7 +148,8 @@ CHECKS["C07"] = dict(
     technique="Coq proof (partial): the optimiser model (Opt.v: bottom-up Delay elision and eta reduction) preserves the outcome of Start(e) for every generated expression "
               "satisfying the computable condition opt_ok, both readings of callbacks, every consumer; structural correspondence optimiser model vs the real optimised output on every run; "
               "two-stage differential (optimised vs unoptimised stage vs source) on random programs and an optimiser-sensitive corpus",
-    text="C07_optimiser_preserves_partial, C07_source_to_optimised_partial (Props_C07.v). Hypotheses: a literal evaluates to its value without effect; a loop condition with a stable "
+    text="C07_optimiser_preserves_partial, C07_source_to_optimised_partial, C07_end_to_end_machine_partial (source coroutine = Start(<optimised expression>) driven by the consumer's MoveNext/Current loop over the "
+         "generator object of the machine model of seq.go; side conditions evaluated on every generated program: within_end_to_end_machine_theorem) (Props_C07.v). Hypotheses: a literal evaluates to its value without effect; a loop condition with a stable "
          "callee behaves like the function value called later (the stableCallee decision of the real optimiser is not modelled). Eta reduction of ordinary user closures and import "
          "clean-up are covered by the differential check: both stages are built and driven with the same tapes, logs must be identical, the optimised stage must build.",
     note=C_NOTE + " For C07 additionally: the optimiser model Opt.v, tied to the real optimiser by lib/optstruct.py.", design="§6 C07, §11")
